@@ -3,6 +3,7 @@ import LunaVerif.Model.Phy.FsCodec
 import LunaVerif.Model.Phy.FsTx
 import LunaVerif.Model.Phy.FsRx
 import LunaVerif.Model.Phy.FsRxCdc
+import LunaVerif.Model.Phy.FsPhy
 open LunaVerif LunaVerif.Proto LunaVerif.FsCodec
 
 structure DrvState where
@@ -26,7 +27,10 @@ o_pkt_end | bitstuff o_data o_stall o_error | shifter o_put o_data | payload_fif
 o_receive_error`);
 sub = 6: the receive path with its clock-domain crossing `FsRxCdc.step phase` (row as sub = 5; output = the `usb`-domain
 outputs of the real RxPipeline `o_data_strobe o_data_payload o_pkt_start o_pkt_end o_pkt_in_progress o_receive_error`
-and `payload_fifo.w_rdy flags_fifo.w_rdy`). -/
+and `payload_fifo.w_rdy flags_fifo.w_rdy`);
+sub = 7: the whole PHY's transmit side in every operating mode `FsPhy.step phase` = `FsTx.step` inside the op-mode
+switch (row = one usb_io cycle: `op_mode tx_valid tx_data term_select dp_pulldown dm_pulldown`; output =
+`tx_ready d_p.o d_n.o oe pullup.o pulldown.o`). -/
 def main : IO Unit :=
   runDriver (σ := DrvState)
     (fun cfg => ⟨fld cfg 0, fld cfg 1, {}, {}, {}⟩)
@@ -62,6 +66,11 @@ def main : IO Unit :=
         ({ st with cdc := s' },
          [b2n o.strobe, o.payload, b2n o.pktStart, b2n o.pktEnd, b2n o.inProgress, b2n o.rxErr,
           b2n s.pay.wRdy, b2n s.flg.wRdy])
+      else if st.sub == 7 then
+        let (s', o) := FsPhy.step st.phase st.tx
+          ⟨fld r 0, n2b (fld r 1), fld r 2, n2b (fld r 3), n2b (fld r 4), n2b (fld r 5)⟩
+        ({ st with tx := s' },
+         [b2n o.ready, b2n o.dP, b2n o.dN, b2n o.oe, b2n o.pullup, b2n o.pulldown])
       else
         let (s', o) := FsTx.step st.phase st.tx ⟨n2b (fld r 0), fld r 1⟩
         ({ st with tx := s' },
